@@ -35,18 +35,24 @@ class Driver:
         return json.loads(line)
 
     def ask_many(self, objs):
-        """Pipeline many requests (driver answers in order)."""
+        """Pipeline many requests (driver answers in order).  Groups are bounded in bytes so
+        that requests + answers never fill both pipe buffers (deadlock)."""
         out = []
-        CH = 256
-        for i in range(0, len(objs), CH):
-            chunk = objs[i:i + CH]
-            self.p.stdin.write("".join(json.dumps(o, separators=(",", ":")) + "\n" for o in chunk))
+        lines = [json.dumps(o, separators=(",", ":")) + "\n" for o in objs]
+        i = 0
+        while i < len(lines):
+            j, size = i, 0
+            while j < len(lines) and (j == i or (size + len(lines[j]) < 16384 and j - i < 64)):
+                size += len(lines[j])
+                j += 1
+            self.p.stdin.write("".join(lines[i:j]))
             self.p.stdin.flush()
-            for _ in chunk:
+            for _ in range(j - i):
                 line = self.p.stdout.readline()
                 if not line:
                     raise RuntimeError(f"driver {self.name} died")
                 out.append(json.loads(line))
+            i = j
         self.n += len(objs)
         return out
 
